@@ -85,13 +85,28 @@ def run_indices(prop: str, batch_seed: int, indices: list[int], tier: str, worke
     chunks = [indices[i : i + size] for i in range(0, len(indices), size)]
     results: list[dict] = []
     ctx = mp.get_context("fork")
-    with cf.ProcessPoolExecutor(max_workers=workers, mp_context=ctx) as ex:
-        futs = [ex.submit(_exec_chunk, (prop, batch_seed, c, tier)) for c in chunks]
-        for f in futs:
-            try:
-                results.extend(f.result(timeout=1800))
-            except Exception as exc:  # noqa: BLE001
-                raise HarnessError(f"worker died: {type(exc).__name__}: {exc}") from exc
+    # a worker killed from outside (the kernel's OOM killer picking a bystander, for instance) breaks the whole pool:
+    # the chunks without a result are run once more in a fresh pool before this counts as a harness error
+    pending = list(chunks)
+    for attempt in (1, 2):
+        failed: list = []
+        last_exc: Exception | None = None
+        with cf.ProcessPoolExecutor(max_workers=workers, mp_context=ctx) as ex:
+            futs = [(c, ex.submit(_exec_chunk, (prop, batch_seed, c, tier))) for c in pending]
+            for c, f in futs:
+                try:
+                    results.extend(f.result(timeout=1800))
+                except cf.process.BrokenProcessPool as exc:
+                    failed.append(c)
+                    last_exc = exc
+                except Exception as exc:  # noqa: BLE001
+                    raise HarnessError(f"worker died: {type(exc).__name__}: {exc}") from exc
+        if not failed:
+            break
+        if attempt == 2:
+            raise HarnessError(f"worker died: {type(last_exc).__name__}: {last_exc}") from last_exc
+        print(f"  note: process pool broke ({len(failed)} chunks without result), running them again", flush=True)
+        pending = failed
     results.sort(key=lambda r: r["index"])
     return results
 
